@@ -633,9 +633,8 @@ func (ls *LState) closeAllUpvalues() { // +inline-start
 } // +inline-end
 
 func (ls *LState) raiseError(level int, format string, args ...interface{}) {
-	if !ls.hasErrorFunc {
-		ls.closeAllUpvalues()
-	}
+	// upvalues are closed where the error is caught (PCall, coroutine death):
+	// only the registers discarded there go out of scope
 	message := format
 	if len(args) > 0 {
 		message = fmt.Sprintf(format, args...)
@@ -1522,9 +1521,6 @@ func (ls *LState) Error(lv LValue, level int) {
 	if str, ok := lv.(LString); ok {
 		ls.raiseError(level, string(str))
 	} else {
-		if !ls.hasErrorFunc {
-			ls.closeAllUpvalues()
-		}
 		ls.Push(lv)
 		ls.Panic(ls)
 	}
@@ -1858,6 +1854,7 @@ func (ls *LState) PCall(nargs, nret int, errfunc *LFunction) (err error) {
 						}
 						ls.stack.SetSp(sp)
 						ls.currentFrame = ls.stack.Last()
+						ls.closeUpvalues(base)
 						ls.reg.SetTop(base)
 					}
 				}()
@@ -1868,6 +1865,7 @@ func (ls *LState) PCall(nargs, nret int, errfunc *LFunction) (err error) {
 			}
 			ls.stack.SetSp(sp)
 			ls.currentFrame = ls.stack.Last()
+			ls.closeUpvalues(base)
 			ls.reg.SetTop(base)
 		}
 		ls.stack.SetSp(sp)
